@@ -19,7 +19,7 @@ SPEC = dict(
          "CapabilitiesNode/InfoForm, addExtension, removeExtension) interleaved with EVERY presence emission site: setClientPresence and "
          "connectToServer + session start (fresh presence or one derived from clientPresence()), session start after an automatic reconnection "
          "(_q_reconnect) or after a reconfiguration made between connectToServer and the session start, QXmppMucRoom::join, "
-         "disconnectFromServer; after EVERY emitted presence its <c node ver> is compared with the independently computed XEP hash of the "
+         "disconnectFromServer, plus presences built from scratch (MUC leave, roster subscription management: must carry no caps); after EVERY emitted presence its <c node ver> is compared with the independently computed XEP hash of the "
          "XML the client answers at that moment, and node#ver / plain node / no node are queried ('config'/'publish'/'connect'/'emit'/'query' "
          "lines tie the stored-presence model clientStep); capabilities nodes include adversarial URIs ('#' inside / repeated / at the end, "
          "XML-special and non-ASCII characters, nodes that are prefixes or extensions of each other, the empty node = nothing advertised). "
@@ -27,7 +27,7 @@ SPEC = dict(
     trusted_base=[
         "Lean 4.33.0 kernel; axioms per theorem listed under coverage.theorems (subset of propext, Classical.choice, Quot.sound)",
         "hand-written model lean/Qx/Model/C20Caps.lean (verStringCode = transcription of QXmppDiscoveryIq::verificationString incl. QMap, "
-        "octetLessThan sorting, removeDuplicates/join, QVariant::toString; verStringSpec = XEP-0115 5.1 on the wire view of QXmppDataForm::toXml), "
+        "octetLessThan sorting, removeDuplicates/join, QVariant::toString for FORM_TYPE, field values as written by toXml; verStringSpec = XEP-0115 5.1 on the wire view of QXmppDataForm::toXml), "
         "tied to src/base/QXmppDiscoveryIq.cpp, QXmppDataForm.cpp, src/client/QXmppDiscoveryManager.cpp, QXmppClient.cpp by the correspondence run",
         "shared Lean libraries Qx.Base.Utf8 (encoder, utf16Units), Qx.Crypto.Sha1, Qx.Crypto.Base64 (executable specs; every 'ver'/'spec' line "
         "compares them with Qt's QCryptographicHash/toBase64/toUtf8 on that input)",
@@ -49,19 +49,19 @@ SPEC = dict(
     ],
     level_text="Theorems for ALL info sets: ver_perm_invariant (identities, features, fields, values in any order), ver_feature_set_invariant / "
                "ver_dup_feature_invariant, ver_string_injective_tokens / _on_canonical and the ver_changes_when_* corollaries under named "
-               "SHA-1 collision freedom, code_eq_spec (C++ string = XEP-0115 5.1 string for every info set with a form in the XEP's domain and "
-               "plain values, any characters; i;octet on UTF-8 proved to be code point order), advertised_eq_answered / "
-               "advertised_eq_xep_hash_of_answer, advertised_node_always_answered (any node string), reply_features_nodup; for ALL client "
-               "histories over {reconfigure, setClientPresence, connectToServer, session start / MUC join / disconnect (stored presence), query}: "
-               "setClientPresence_emits_fresh_caps, every_emitted_caps_are_fresh_in_disciplined_histories (no reconfiguration between the last "
-               "recomputation and an emission) + fresh_caps_are_answered; defects with witnesses: C20_defect_boolean_field, "
-               "C20_defect_valueless_field, C20_defect_stale_caps_on_stored_emission. Model tied to the real library by exhaustive-permutation + "
-               "random correspondence, an independent XEP implementation, and real client histories on a loopback connection.",
+               "SHA-1 collision freedom, code_eq_spec (C++ string = XEP-0115 5.1 string for every info set with a form in the XEP's domain: "
+               "any characters, strings / lists / booleans / value-less fields; i;octet on UTF-8 proved to be code point order), "
+               "advertised_eq_answered / advertised_eq_xep_hash_of_answer, advertised_node_always_answered (any node string), "
+               "reply_features_nodup; for ALL client histories over {reconfigure, setClientPresence, connectToServer, session start / MUC join / "
+               "disconnect, query}: every_emitted_presence_has_fresh_caps and every_emitted_presence_advertises_the_answer_of_that_moment "
+               "(unrestricted). No defect theorem is left. Model tied to the real library by exhaustive-permutation + random correspondence, an "
+               "independent XEP implementation, and real client histories on a loopback connection.",
     level_note="Proved about the hand-written model; model-to-code tie is differential (all permutations of small sets, sampled beyond; sampled "
-               "client histories). SHA-1 collision resistance is a named hypothesis. Recorded deviations: boolean fields hashed as true/false and "
-               "value-less fields hashed as var<< (excluded from code_eq_spec by PlainForm; fixes/C20-form-values.diff), and stale caps at the "
-               "sites that send the stored presence after a reconfiguration (session start incl. automatic reconnection, MUC join, disconnect; "
-               "excluded by the Disciplined hypothesis; fixes/C20-stale-caps.diff). Verification of other entities' caps and XEP-0390 are out of scope.",
+               "client histories over every presence emission site). SHA-1 collision resistance is a named hypothesis. All seven deviations found "
+               "(collation, repeated features, boolean fields, value-less fields, stale caps at session start / MUC join / disconnect) are fixed "
+               "in /repo (0beac74, eee8133, 03b8892, 032336b); their witnesses stay in the corpus and would now be violations. Verification of "
+               "other entities' caps (XEP-0115 5.4) and XEP-0390 are out of scope (no code path / not emitted); presences the application "
+               "builds itself and sends with sendPacket are the application's own.",
     design_ref="5.20",
     technique="Lean 4 proofs (sorting/permutation, injective encoding, UTF-8 order) + model/implementation correspondence + independent XEP-0115 oracle",
 )
